@@ -53,6 +53,8 @@ pub enum ExecutionError {
     RecursivelyDefinedScopedVariable(String),
     #[error("Recursively defined variable {0}")]
     RecursivelyDefinedVariable(String),
+    #[error("Recursively defined attribute shorthand {0}")]
+    RecursivelyDefinedShorthand(String),
     #[error("Undefined capture {0}")]
     UndefinedCapture(String),
     #[error("Undefined function {0}")]
